@@ -160,5 +160,12 @@ func (s *IDGenerator) Clear(stream int) (inuse bool) {
 }
 
 func (s *IDGenerator) Available() int {
-	return s.NumStreams - int(atomic.LoadInt32(&s.inuseStreams)) - 1
+	// the in-use counter is updated after the bitmap, so while GetStream and
+	// Clear run concurrently it can briefly count an id twice; never report
+	// an impossible (negative) number of available streams
+	n := s.NumStreams - int(atomic.LoadInt32(&s.inuseStreams)) - 1
+	if n < 0 {
+		return 0
+	}
+	return n
 }
